@@ -34,7 +34,7 @@ pub struct Case {
 fn case_strategy(t: Tier) -> BoxedStrategy<Case> {
     let nflips = t.pick(24usize, 64usize);
     (
-        prog::ops_strategy(16, 3, 1),
+        prog::with_pi_burst(prog::ops_strategy(16, 3, 1), 200),
         prog::ops_strategy(8, 1, 0),
         proptest::collection::vec(any::<u8>(), 0..12),
         any::<u64>(),
@@ -439,7 +439,7 @@ fn sweep(ctx: &Ctx) {
             Op::PointWit(prog::PtSpec::sub(F::from(5u64))),
             Op::TorsionFree(60000),
             Op::AddPoint(60000, 60000),
-            Op::MulGenerator { s: crate::fe::Fe(F::from(77u64)), gen: crate::fe::Fe(F::one()) },
+            Op::MulGenerator { s: crate::fe::Fe(F::from(77u64)), gen: crate::fe::Fe(F::one()), z: crate::fe::Fe(F::from(5u64)) },
         ];
         let s = match subject(&ops, b"flip-sweep", ctx.seed ^ pidx as u64) {
             Ok(s) => s,
